@@ -915,5 +915,104 @@ def solve(ctx):
     return res
 
 
-RULES = [scalar_conv, placement, thickness_edit, media_chain, one_stop,
+_GEO = {'cs': 'coordinate_system', 'kw:radius': 'radius', 'kw:conic': 'conic'}
+_NR = dict(_GEO, **{'kw:tol': 'tol', 'kw:max_iter': 'max_iter',
+                    'kw:coefficients': 'coefficients'})
+_ID6 = {k: k for k in ('surface_type', 'index', 'is_stop', 'material',
+                       'thickness')}
+WIRING_SITES = [
+    ('Optic.add_surface', 'SurfaceGroup.add_surface',
+     dict(_ID6, new_surface='new_surface', **{'**kwargs': '**'})),
+    ('SurfaceGroup.add_surface', 'SurfaceFactory.create_surface',
+     dict(_ID6, **{'**kwargs': '**'})),
+    ('SurfaceFactory.create_surface', 'SurfaceFactory._configure_cs',
+     {'index': 'index', 'thickness': 'thickness', '**kwargs': '**'}),
+    ('SurfaceFactory.create_surface', 'SurfaceFactory._configure_material',
+     {'index': 'index', 'material': 'material'}),
+    ('SurfaceFactory.create_surface', 'SurfaceFactory.configure_coating',
+     {"kwargs.get('coating', None)": 'coating', 'material_pre': 'material_pre',
+      'material_post': 'material_post'}),
+    ('SurfaceFactory.create_surface', 'Surface.__init__',
+     {'geometry': 'geometry', 'material_pre': 'material_pre',
+      'material_post': 'material_post', 'is_stop': 'is_stop',
+      'is_reflective': 'is_reflective', 'coating': 'coating',
+      'kw:bsdf': 'bsdf', '**filtered_kwargs': '**'}),
+    ('SurfaceFactory.create_surface', 'ObjectSurface.__init__',
+     {'geometry': 'geometry', 'material_post': 'material_post'}),
+    ('SurfaceFactory._configure_cs', 'CoordinateSystem.__init__',
+     {'kw:dx': 'x', 'kw:dy': 'y', 'z': 'z', 'kw:rx': 'rx', 'kw:ry': 'ry'}),
+    ('SurfaceFactory._configure_standard_geometry', 'Plane.__init__',
+     {'cs': 'coordinate_system'}),
+    ('SurfaceFactory._configure_standard_geometry',
+     'StandardGeometry.__init__', _GEO),
+    ('SurfaceFactory._configure_even_asphere_geometry', 'EvenAsphere.__init__',
+     _NR),
+    ('SurfaceFactory._configure_polynomial_geometry',
+     'PolynomialGeometry.__init__', _NR),
+    ('SurfaceFactory._configure_chebyshev_geometry',
+     'ChebyshevPolynomialGeometry.__init__',
+     dict(_NR, **{'kw:norm_x': 'norm_x', 'kw:norm_y': 'norm_y'})),
+    ('SurfaceFactory._configure_material', 'IdealMaterial.__init__',
+     {'1.0': 'n', '0.0': 'k'}),
+    ('SurfaceFactory.configure_coating', 'FresnelCoating.__init__',
+     {'material_pre': 'material_pre', 'material_post': 'material_post'}),
+    ('Optic.add_wavelength', 'WavelengthGroup.add_wavelength',
+     {'value': 'value', 'is_primary': 'is_primary', 'unit': 'unit'}),
+    ('WavelengthGroup.add_wavelength', 'Wavelength.__init__',
+     {'value': 'value', 'is_primary': 'is_primary', 'unit': 'unit'}),
+]
+WIRING_DEFAULTS = [
+    ('SurfaceFactory._configure_cs', 'dx', '0'),
+    ('SurfaceFactory._configure_cs', 'dy', '0'),
+    ('SurfaceFactory._configure_cs', 'rx', '0'),
+    ('SurfaceFactory._configure_cs', 'ry', '0'),
+] + [(f'SurfaceFactory._configure_{g}_geometry', k, d)
+     for g in ('standard', 'even_asphere', 'polynomial', 'chebyshev')
+     for k, d in (('radius', 'np.inf'), ('conic', '0'))] + [
+    ('SurfaceFactory._configure_chebyshev_geometry', 'norm_x', '1'),
+    ('SurfaceFactory._configure_chebyshev_geometry', 'norm_y', '1')]
+
+
+def arg_wiring_rule(ctx):
+    from .common import arg_wiring
+    res = arg_wiring(ctx, 'ARG-WIRING', WIRING_SITES, WIRING_DEFAULTS)
+    P = ctx.P
+    # the per-type table hands each geometry the keys it needs
+    f = P.func('SurfaceFactory.create_surface')
+    need = {'standard': {'radius', 'conic'},
+            'even_asphere': {'radius', 'conic', 'coefficients'},
+            'polynomial': {'radius', 'conic', 'coefficients'},
+            'chebyshev': {'radius', 'conic', 'coefficients', 'norm_x',
+                          'norm_y'}}
+    tab = None
+    for st in ast.walk(f.node):
+        if isinstance(st, ast.Assign) and isinstance(st.value, ast.Dict) and \
+                unparse(st.targets[0]) == 'surface_config':
+            tab = st.value
+    if tab is None:
+        raise AnalysisError('create_surface: surface_config table not found')
+    seen = {}
+    for k, v in zip(tab.keys, tab.values):
+        ent = {kk.value: vv for kk, vv in zip(v.keys, v.values)}
+        seen[k.value] = (unparse(ent['geometry']),
+                         {e.value for e in ent['expected_params'].elts})
+    for t, keys in need.items():
+        if t not in seen:
+            res.fail(ctx.finding('ARG-WIRING', f, tab,
+                                 f'surface type {t!r} is no longer offered',
+                                 construct=f'surface_config {t}'))
+            continue
+        g, ek = seen[t]
+        if g == f'self._configure_{t}_geometry' and keys <= ek:
+            res.ok(f'surface_config[{t!r}] -> {g}, passes {sorted(keys)}')
+        else:
+            res.fail(ctx.finding(
+                'ARG-WIRING', f, tab,
+                f'surface_config[{t!r}] builds {g} and passes {sorted(ek)}: '
+                f'needs _configure_{t}_geometry with {sorted(keys)}',
+                construct=f'surface_config {t}'))
+    return res
+
+
+RULES = [arg_wiring_rule, scalar_conv, placement, thickness_edit, media_chain, one_stop,
          setter_writes, pickup, solve]
